@@ -486,7 +486,7 @@ type child struct {
 	// quick tier economies
 	directOps     []op
 	rejectedEvery int
-	baseline map[string]opResult
+	baseline      map[string]opResult
 
 	// the in-child monitor: time and allocation budget of the running case
 	budget      time.Duration
@@ -502,7 +502,7 @@ type child struct {
 func c11Child(rec *kit.Rec, mode, arg string) {
 	// runaway allocation must be a dead child, not a dead box
 	capAddressSpace(1 << 30)
-	log.SetOutput(io.Discard) // the loader logs every rejected shard
+	log.SetOutput(io.Discard)                     // the loader logs every rejected shard
 	if pp := os.Getenv("C11_CPUPROF"); pp != "" { // debugging aid for stalled cases
 		if f, err := os.Create(pp); err == nil {
 			_ = pprof.StartCPUProfile(f)
@@ -1157,7 +1157,9 @@ func battery() (full, reduced []op) {
 	ctx := zoekt.SearchOptions{NumContextLines: 1, DebugScore: true}
 	bm25 := zoekt.SearchOptions{UseBM25Scoring: true, ChunkMatches: true}
 	ids := roaring.BitmapOf(healthyIDs[0], healthyIDs[2], subjectIDs[0], subjectIDs[1])
-	s := func(name string, q query.Q, o zoekt.SearchOptions) { full = append(full, op{Name: name, Kind: "search", Q: q, SO: o}) }
+	s := func(name string, q query.Q, o zoekt.SearchOptions) {
+		full = append(full, op{Name: name, Kind: "search", Q: q, SO: o})
+	}
 	s("content substring", mustParse("ab"), whole)
 	s("content substring case-sensitive chunks", mustParse("case:yes Abc"), chunks)
 	s("content regexp", mustParse("a.c|b+a"), whole)
@@ -1183,7 +1185,9 @@ func battery() (full, reduced []op) {
 	s("raw config and meta", mustParse("archived:no fork:no (meta.k:ab or abc)"), ctx)
 	s("bm25", mustParse("abc ab"), bm25)
 	s("limits", mustParse("a"), zoekt.SearchOptions{ShardMaxMatchCount: 3, ChunkMatches: true, ShardRepoMaxMatchCount: 2})
-	l := func(name string, q query.Q, o *zoekt.ListOptions) { full = append(full, op{Name: name, Kind: "list", Q: q, LO: o}) }
+	l := func(name string, q query.Q, o *zoekt.ListOptions) {
+		full = append(full, op{Name: name, Kind: "list", Q: q, LO: o})
+	}
 	l("list all, nil options", &query.Const{Value: true}, nil)
 	l("list all, repos", &query.Const{Value: true}, &zoekt.ListOptions{Field: zoekt.RepoListFieldRepos})
 	l("list all, repos map", &query.Const{Value: true}, &zoekt.ListOptions{Field: zoekt.RepoListFieldReposMap})
